@@ -87,6 +87,44 @@ def known_shapes():
     return shapes
 
 
+def migration_shapes():
+    """The encoding migration of a node (JSON life -> restart as a protobuf node), as behaviours of FSM.tla
+    with InitEnc = "json"; replayed with every seed."""
+    pre = F.PRELUDES["PreludeSess"]
+    line = lambda ts, i: F._e("cmd", "line", ts, 1, i, 0)
+    cfg = lambda ts, x: F._e("cmd", "config", ts, 0, 0, x)
+    raft = F._e("raft", "none", 0, 0, 0, 0)
+    A = lambda i, e: H("Apply", i, e)
+    M = dict(H("RestartEnc"), enc="proto")
+    shapes = {}
+    # no snapshot: both stores converted, the whole converted log replayed; then snapshot + restore as protobuf
+    shapes["convert-replay-snapshot-restore"] = [
+        A(1, pre[0]), A(2, line(0, 2)), A(3, raft), A(4, line(6, 4)), M, H("SnapshotTake", now=64), H("PersistOK"),
+        H("Restore"), A(5, line(6, 5)), H("Restart")]
+    # JSON snapshot restored by the protobuf node at its start (decodeJson, conversion of the refilled irclog),
+    # the protobuf snapshot starts from the base the JSON snapshot left, live restore, restart
+    shapes["json-snapshot-restored-by-protobuf-node"] = [
+        A(1, pre[0]), A(2, line(0, 2)), A(3, line(6, 3)), H("SnapshotTake", now=64), H("PersistOK"), A(4, line(6, 4)), M,
+        A(5, line(6, 5)), H("SnapshotTake", now=70), H("PersistOK"), H("Restore"), H("Restart")]
+    # live restore of the JSON snapshot in the protobuf life, entries re-applied from the converted raft log
+    shapes["json-snapshot-live-restore-after-migration"] = [
+        A(1, pre[0]), A(2, line(0, 2)), A(3, raft), A(4, line(6, 4)), H("SnapshotTake", now=64), H("PersistOK"), A(5, line(6, 5)), M,
+        H("Restore"), A(5, line(6, 5)), H("SnapshotTake", now=64), H("PersistOK"), H("Restart")]
+    # the JSON snapshot folded everything (no retained record), migration, next snapshot
+    shapes["json-fold-all-then-migration"] = [
+        A(1, pre[0]), A(2, line(0, 2)), A(3, line(0, 3)), H("SnapshotTake", now=70), H("PersistOK"), M, A(4, line(6, 4)),
+        H("SnapshotTake", now=64), H("PersistOK"), H("Restart")]
+    # crash between Snapshot()'s deletions and Persist in the JSON life, start as a protobuf node
+    shapes["json-crash-after-deletions-then-migration"] = [
+        A(1, pre[0]), A(2, line(0, 2)), A(3, line(6, 3)), H("SnapshotTake", now=64), M, H("SnapshotTake", now=64), H("PersistOK"),
+        H("Restart")]
+    # the expiration configured in the JSON life is in force after the migration (decodeJson re-establishes it)
+    shapes["expiration-across-migration"] = [
+        A(1, pre[0]), A(2, cfg(0, 90)), A(3, line(30, 3)), A(4, line(30, 4)), H("SnapshotTake", now=95), H("PersistOK"), M,
+        H("SnapshotTake", now=95), H("PersistOK"), H("Restart")]
+    return shapes
+
+
 def has_refused_create(b, prelude):
     """Does the behaviour's log contain a CreateSession that the state machine refuses?"""
     st = F.Abs()
@@ -140,7 +178,8 @@ def real_raft(ctx, eng, num):
             else:
                 ctx.add("violating_schedules_not_listed", 1)
     ctx.cov["real_raft"] = {"scenarios": num, "ok": num - bad, "snapshots": sum(r["snaps"] for r in res),
-                            "snapshot_errors": sum(r["snap_errs"] for r in res), "restarts": sum(r["restarts"] for r in res)}
+                            "snapshot_errors": sum(r["snap_errs"] for r in res), "restarts": sum(r["restarts"] for r in res),
+                            "migrations": sum(r.get("migrated", 0) for r in res)}
     ctx.add("traces_validated_against_impl", num)
     ctx.log("real raft: %d scenarios, %d differ, %d snapshots, %d restarts, %.1fs" % (num, bad, ctx.cov["real_raft"]["snapshots"],
                                                                                    ctx.cov["real_raft"]["restarts"], time.time() - t))
@@ -257,13 +296,16 @@ def _run(ctx):
                 cex[cfg] = hist
         ctx.cov["asis_counterexamples"] = {k: [h["a"] for h in v] for k, v in cex.items()}
         return cex
-    pool = concurrent.futures.ThreadPoolExecutor(max_workers=2)
+    pool = concurrent.futures.ThreadPoolExecutor(max_workers=3)
+    f_mig = pool.submit(eng.edges, "FSM_migbook.cfg", 1500)
     f_cex = pool.submit(asis)
     f_sim = pool.submit(eng.simulate, "FSM_sim.cfg", 40 if quick else 600, 36, 300 if quick else 2400)
 
     # 3. replay on the real FSM: known shapes, both encodings
     behs = list(known_shapes().values())
     eng.replay_behaviours(behs + behs, "PreludeSess", "shape", proto_of=lambda k: k < len(behs))
+    # 3b. the encoding migration of the node: a JSON node restarted as a protobuf node
+    eng.replay_behaviours(list(migration_shapes().values()), "PreludeSess", "migshape", proto_of=lambda k: False)
 
     # 4. replay every transition of the small graphs
     behs, nedges = eng.edges("FSM_edges.cfg" if quick else "FSM_edges4.cfg")
@@ -284,6 +326,15 @@ def _run(ctx):
     eng.replay_behaviours(behs, "PreludeSess", "limedge", nproc=4 if quick else 6)
     if not quick:
         eng.background("exhaustive-lim", lambda: eng.exhaustive("FSM_lim.cfg", workers=4))
+
+    # 4c. every transition of the migration graph (JSON life, RestartWithEncoding("proto"), protobuf life):
+    #     the behaviours that contain the migration
+    behs, nedges = f_mig.result()
+    ctx.cov["edges_migration"] = nedges
+    behs = [b for b in behs if any(h["a"] == "RestartEnc" for h in b)]
+    ctx.cov["migration_behaviours"] = len(behs)
+    scheds_m, ev_m = eng.replay_behaviours(behs, "PreludeSess", "migedge", proto_of=lambda k: False, limit=350 if quick else None,
+                                           nproc=4 if quick else 6)
 
     # 5. TLC's counterexamples for the pinned behaviour and the simulated behaviours
     behs = list(f_cex.result().values())
